@@ -23,6 +23,7 @@ echo "== demo WITHOUT the change (must pass):"
 cargo test $PKGS --offline $REL --test "$DEMONAME" 2>&1 | grep -E "^test result|panicked|FAILED" | head -5
 git apply mutation.patch
 echo "== registered check against the change:"
+if vp runs 2>/dev/null | grep -q "  running "; then echo "a vp background run is active and uses /repo: refusing to patch /repo now"; exit 3; fi
 if [ -n "$(git -C /repo status --porcelain --untracked-files=no)" ]; then echo "/repo dirty"; exit 2; fi
 git -C /repo apply "$WT/mutation.patch" || { echo "does not apply to /repo"; exit 2; }
 (cd /verif && ./check "$PROP" --tier quick 2>&1 | tail -12; echo "check exit=${PIPESTATUS[0]}")
